@@ -347,7 +347,14 @@ def rule_b(ctx, ix, f):
         kw = {k.arg: unparse(k.value) for k in cmr[0].keywords}
         cat_v = e.get(kw.get('cat_att', unparse(cmr[0].args[1]) if len(cmr[0].args) > 1 else ''), set())
         num_v = e.get(kw.get('num_att', unparse(cmr[0].args[2]) if len(cmr[0].args) > 2 else ''), set())
-        cats = e.get('categories', set())
+        # the categories walked by the loop that intersects the polygon with each category position
+        cat_name = 'categories'
+        for lp_ in ast.walk(node):
+            if isinstance(lp_, ast.For) and any(x is pli[0] for x in ast.walk(lp_)):
+                for n_ in ast.walk(lp_.iter):
+                    if isinstance(n_, ast.Name) and n_.id in e:
+                        cat_name = n_.id
+        cats = e.get(cat_name, set())
         ctx.ob(R, 'glue.core.subset:roi_to_subset_state mixed[%s] attributes' % which,
                'the categorical attribute, the categories and the numerical attribute come from the matching axes',
                cat_v == {cat_axis} and num_v == {num_axis} and cats == {cat_axis},
@@ -469,9 +476,17 @@ def rule_e(ctx, ix, f):
     ctx.describe(R, 'every category is examined when a polygon-like region is translated (no early exit from the per-category pass)', floor=2)
     pm = _pm(f.node)
     n = 0
+    # the category collections: the two parameters and every local bound to one of them
+    cat_names = set(f.params[3:5])
+    for _ in range(3):
+        for st in ast.walk(f.node):
+            if isinstance(st, ast.Assign) and isinstance(st.value, (ast.Name, ast.Attribute)) and unparse(st.value) in cat_names:
+                for t_ in st.targets:
+                    if isinstance(t_, ast.Name):
+                        cat_names.add(t_.id)
     for it, tg, owner, kind in iterations(f.node):
         ew = elementwise(it, f.node)
-        if ew is None or not ew.source.endswith('categories'):
+        if ew is None or ew.source not in cat_names:
             continue
         n += 1
         if kind == 'for':
